@@ -19,6 +19,7 @@ mod wire;
 mod c01;
 mod c02;
 mod c04;
+mod c05;
 mod c06;
 mod c15;
 mod c16;
@@ -101,6 +102,7 @@ fn main() {
         "C01" => c01::run(&ctx, evidence.as_ref()),
         "C02" => c02::run(&ctx, evidence.as_ref()),
         "C04" => c04::run_all(&ctx, evidence.as_ref()),
+        "C05" => c05::run(&ctx, evidence.as_ref()),
         "C06" => c06::run(&ctx, evidence.as_ref()),
         "C15" => c15::run(&ctx, evidence.as_ref()),
         "C16" => c16::run(&ctx, evidence.as_ref()),
